@@ -39,7 +39,7 @@ def main():
         jobs = int(args[1])
         args = args[2:]
     if args == ["all"]:
-        args = sorted(os.listdir(os.path.join(ROOT, "seeded")))
+        args = sorted(d for d in os.listdir(os.path.join(ROOT, "seeded")) if os.path.exists(os.path.join(ROOT, "seeded", d, "meta.json")))
     with ThreadPoolExecutor(jobs) as ex:
         for name, line in ex.map(one, args):
             print(line, flush=True)
